@@ -104,7 +104,7 @@ func (f *DocumentTitleMatch) Process(doc *webdoc.TextDocument) bool {
 		text := tb.Text
 		text = strings.ReplaceAll(text, string('\u00a0'), " ")
 		text = strings.ReplaceAll(text, "'", "")
-		text = strings.TrimSpace(text)
+		text = strings.Join(strings.Fields(text), " ")
 		text = strings.ToLower(text)
 		if _, exist := f.potentialTitles[text]; exist {
 			tb.AddLabels(label.Title)
